@@ -16,11 +16,11 @@ EXPLAIN = "c07_explain"
 CASES_PER_FILE = 120
 CASE_FILE_BYTES = 140000
 TIERS = {"quick": {"n": 1800}, "thorough": {"n": 15000, "exhaustive": True}}
-RULE = ("(base, ref1, ref2): absolute base URL with authority (optional userinfo/port/query/fragment, path of 0-6 "
+RULE = ("(base, ref1, ref2): absolute base URL with authority (optional userinfo/port/query/fragment; 5 % file:///-style with an empty authority and a non-empty path; path of 0-6 "
         "segments incl. '.', '..', '' and trailing slash) x references that are path-relative / path-absolute "
         "(0-7 segments over {., .., '', a, b, c;x, d:e, ..., .a, b., x=1, @, e-acute}; 1 in 12 is a run of '..' that reaches the root followed by an empty/dot tail), query-only, fragment-only, "
-        "empty, or absolute URLs; ref2 is applied to the result (chaining); references alternate between str and URL "
-        "objects; 15 % of the bases are rebuilt with URL.from_parts(path_parts without the leading '');  thorough adds every reference path of <= 4 segments over {., .., '', a, b} x 7 base shapes. "
+        "empty, or absolute URLs; ref2 is applied to the result (chaining); each reference is passed as str, as URL(text) "
+        "or as a URL object assembled with from_parts; 15 % of the bases are rebuilt with URL.from_parts(path_parts without the leading '');  thorough adds every reference path of <= 4 segments over {., .., '', a, b} x 7 base shapes. "
         "non-trivial = ref1 or ref2 has a '.', '..' or empty path segment, or is query-/fragment-only; "
         "distinct = distinct (base, ref1, ref2) hash")
 ASSUMPTIONS = ["texts are free of '%', of ';' '+' in queries, of IPv6/IDNA hosts (quoting/IDNA belong to C06)",
@@ -29,7 +29,7 @@ ASSUMPTIONS = ["texts are free of '%', of ';' '+' in queries, of IPv6/IDNA hosts
 TRUSTED = ["Model/C07_Model.v is hand-written; tied to boltons.urlutils.URL by the correspondence run",
            "Spec/C07_Spec.v transcribes RFC 3986 5.2.2-5.2.4, 5.3 and Appendix B; validated in Coq against all "
            "examples of RFC 3986 5.4.1/5.4.2 (Proofs/C07_RfcExamples.v)",
-           "harness/c07.py serialiser; harness/translators/c07_tables.py",
+           "harness/c07.py serialiser; harness/translators/c07_tables.py, c07_src.py and the shared py2coq.py",
            "Python re (the regular expression of _URL_RE is compared with the modelled one on every run)"]
 
 SEGS = ['.', '..', '', 'a', 'b', 'c;x', 'd:e', '...', '.a', 'b.', 'x=1', '@', 'é', '..', '.', 'a', '']
